@@ -4,6 +4,7 @@ package c13
 import (
 	"fmt"
 	"math"
+	"strings"
 
 	"owverif.local/verif/gridx"
 	"owverif.local/verif/tables"
@@ -43,6 +44,8 @@ func configs() []cfg {
 		{"n=3-convex", []float64{0, 5, 10}, []float64{0, 1e6, 3e6}, []float64{0, 1e5, 4e5}},
 		{"n=4-concave", []float64{0, 2, 6, 10}, []float64{0, 5e5, 1e6, 3e6}, []float64{0, 3e5, 3.8e5, 4e5}},
 		{"n=4-short-top-segment", []float64{0, 5, 9.5, 10}, []float64{0, 1e6, 2.9e6, 3e6}, []float64{0, 2e5, 3.9e5, 4e5}},
+		// the table starts above empty (volumes below the first point use the first point's values)
+		{"n=3-first-point-above-empty", []float64{2, 5, 10}, []float64{5e5, 1e6, 3e6}, []float64{0, 1e5, 4e5}},
 	}
 	for _, t := range lvas {
 		n := len(t.v)
@@ -61,7 +64,8 @@ func configs() []cfg {
 		rels["max-constant"] = [2][]float64{zero, constMax}
 		rels["max-increasing"] = [2][]float64{zero, incMax}
 		rels["spillway"] = [2][]float64{spillMin, spillMax}
-		for _, rn := range []string{"release-zero", "max-constant", "max-increasing", "spillway"} {
+		rels["uncontrolled-outlet"] = [2][]float64{incMax, incMax} // the release follows the volume
+		for _, rn := range []string{"release-zero", "max-constant", "max-increasing", "spillway", "uncontrolled-outlet"} {
 			for _, dt := range []float64{86400, 3600} {
 				out = append(out, cfg{fmt.Sprintf("%s/%s/dt=%g", t.n, rn, dt), dt, t.l, t.v, t.a, rels[rn][0], rels[rn][1]})
 			}
@@ -170,6 +174,12 @@ func spaces(tier string) []*gridx.Space {
 		p := tables.StorageParams(cf.dt, cf.levels, cf.vols, cf.areas, cf.minRel, cf.maxRel)
 		inits := [][]float64{{0, 0, 0}, {top * 0.4, 0, 0}, {top * 0.9, 0, 0}, {top, 0, 0}}
 		out = append(out, &gridx.Space{Name: "Storage/" + cf.name, Model: "Storage", Params: [][]float64{p}, PNames: []string{cf.name}, Letters: letters, T: T, Inits: inits, Oracle: oracle(cf)})
+		// long periodic series (years of daily steps): every word of length 1..2 over 4 letters repeated 512 times
+		if cf.dt == 86400 && (strings.HasSuffix(cf.name, "uncontrolled-outlet/dt=86400") || (tier == "thorough" && strings.Contains(cf.name, "spillway"))) {
+			long := [][]float64{{0, 0, 0, 0, 0, 0}, {0, 0, 200, 0, 0, 0}, {2, 8, 20, 1, 0, 0}, {0, 8, 0, 50, 0, 0}}
+			out = append(out, &gridx.Space{Name: "Storage-long/" + cf.name, Model: "Storage", Params: [][]float64{p}, PNames: []string{cf.name}, Letters: long, T: 2, MinT: 1, Repeat: 512,
+				Inits: [][]float64{{top * 0.4, 0, 0}}, Oracle: oracle(cf), SecondPassEvery: -1})
+		}
 	}
 	return out
 }
@@ -177,9 +187,9 @@ func spaces(tier string) []*gridx.Space {
 func Spec() *vf.Check {
 	return &vf.Check{
 		ID: "C13", Level: "exploration", BlockSize: 64,
-		Rule: "Storage x 4 level-volume-area tables (2, 3 convex, 4 concave, 4 with a short top segment; area 0 at volume 0) x 4 release-curve families (zero, constant max, increasing max, spillway) x dt {86400,3600} x initial volume {empty, 40%, 90%, full} x every word of length T over 10 (rain,PET,inflow,demand,targetMinimumVolume,targetMinimumCapacity) letters (filling to spill and drawing down to empty occur); " +
+		Rule: "Storage x 5 level-volume-area tables (2, 3 convex, 4 concave, 4 with a short top segment, 3 starting at a volume above empty; area 0 at the first point) x 5 release-curve families (zero, constant max, increasing max, spillway, uncontrolled outlet min=max) x dt {86400,3600} x initial volume {empty, 40%, 90%, full} x every word of length T over 10 (rain,PET,inflow,demand,targetMinimumVolume,targetMinimumCapacity) letters (filling to spill and drawing down to empty occur); plus long periodic series: every word of length 1..2 over 4 letters repeated 512 times (512 / 1024 daily steps) for the uncontrolled-outlet tables (thorough: spillway tables too); " +
 			"per step: balance with the reported rainfall/evaporation volumes, those volumes = depth x area over the areas traversed, V>=0, outflow within the release curves over the volumes traversed, = demand when admissible at both ends, excess only above full supply; final level/area = table values. distinct_nontrivial = words that move water.",
-		Assumptions:   []string{"tables are physically consistent: zero area and zero release at zero volume (a reservoir cannot release or evaporate from nothing)", "within one step the volume moves monotonically (constant forcing) up to the sub-step controller's tolerance, so curve values at the step's end volumes bound the release within 1e-4 relative + 1e-3 m3/s", "lattice values only"},
+		Assumptions:   []string{"tables are physically consistent: zero area and zero release at (and below) the first table point (a reservoir cannot release or evaporate from nothing)", "within one step the volume moves monotonically (constant forcing) up to the sub-step controller's tolerance, so curve values at the step's end volumes bound the release within 1e-4 relative + 1e-3 m3/s", "lattice values only"},
 		Build:         func(tier string) vf.Enumeration { return gridx.NewEnum("C13", spaces(tier)) },
 		QuickDeadline: 0,
 	}
